@@ -200,7 +200,7 @@ def plan(path: str, rnd: random.Random, q: bool) -> list:
             continue
         lo = max(ds + 2, end - 40)
         pairs = [(p, p2) for p in range(lo, end) for p2 in range(lo, end) if p != p2 and raw[p] != raw[p2]]
-        for p, p2 in (rnd.sample(pairs, min(len(pairs), 25)) if q else pairs):
+        for p, p2 in rnd.sample(pairs, min(len(pairs), 25 if q else 160)):
             add("subst", p, [raw[p2]], zid)
     # a zone's id (a pool index at the start of its field) replaced by other pool entries, framing kept consistent:
     # the empty string, another zone's id (a duplicate), the last entry, an index past the pool
